@@ -390,3 +390,28 @@ func NoteCurrent(id string, c interface{}) string {
 	_ = os.WriteFile(p, b, 0o644)
 	return p
 }
+
+// Fuzz hands a property (generator + oracle) to Go's native coverage-guided fuzzer through
+// rapid.MakeFuzz: the fuzzer's bytes drive the rapid generators, so the same structured cases and
+// the same oracle are used, but the search is coverage-guided and uses all cores (thorough tier).
+// A violation is saved as <VERIF_OUT>/<id>.fuzz.fail.json in replay format before failing.
+func Fuzz[C any](f *testing.F, id string, gen func(*rapid.T) C, check func(C) Result) {
+	outDir := os.Getenv("VERIF_OUT")
+	f.Fuzz(rapid.MakeFuzz(func(rt *rapid.T) {
+		c := gen(rt)
+		r := safeCheck(check, c)
+		if r.Violation == "" {
+			return
+		}
+		if outDir != "" {
+			raw, _ := json.Marshal(c)
+			b, _ := json.MarshalIndent(failDoc{Property: id, Violation: r.Violation, Case: raw}, "", " ")
+			_ = os.MkdirAll(outDir, 0o755)
+			tmp := filepath.Join(outDir, fmt.Sprintf(".%s.fuzz.%d.tmp", id, os.Getpid()))
+			if os.WriteFile(tmp, b, 0o644) == nil {
+				_ = os.Rename(tmp, filepath.Join(outDir, id+".fuzz.fail.json"))
+			}
+		}
+		rt.Fatalf("%s", r.Violation)
+	}))
+}
